@@ -250,8 +250,13 @@ def higher(shape, kind, D, P, seed, salt):
     return h
 
 
-def make_args(entry, D, P, seed=0):
-    """list of arguments (UTPM / constants) for the entry"""
+VARIANTS = ['dense', 'arg0:order1=0', 'arg0:const', 'arg1:order1=0', 'arg1:const']
+
+
+def make_args(entry, D, P, seed=0, variant='dense'):
+    """list of arguments (UTPM / constants) for the entry.  variant selects a SUPPORT pattern of the higher coefficients:
+    'argK:order1=0' zeroes the first-order coefficient of the K-th polynomial argument (higher ones stay), 'argK:const'
+    zeroes all its higher coefficients; base points always differ from direction to direction."""
     out = []
     for i, a in enumerate(entry.args):
         if a[0] == 'c':
@@ -263,8 +268,20 @@ def make_args(entry, D, P, seed=0):
             data[0, p] = base_point(shape, kind, p + 3 * i, seed)
         if D > 1:
             data[1:] = higher(shape, kind, D, P, seed, i)
+        nu = sum(1 for q in entry.args[:i] if q[0] == 'u')
+        if variant == 'arg%d:order1=0' % nu and D > 1:
+            data[1] = 0
+        if variant == 'arg%d:const' % nu and D > 1:
+            data[1:] = 0
         out.append(UTPM(data))
     return out
+
+
+def variants_for(entry, D):
+    nu = sum(1 for q in entry.args if q[0] == 'u')
+    if D < 2:
+        return ['dense']
+    return [v for v in VARIANTS if v == 'dense' or int(v[3]) < nu]
 
 
 def outputs(res):
